@@ -103,7 +103,9 @@ class Module(object):
     self.tree = ast.parse(src, path)
     if repo.normalize:
       from . import norm
-      self.tree = norm.normalize_module(self.tree, name, repo.norm_stats)
+      ext = (lambda nm, me=name: repo.mentions.get(nm, 0) - (1 if nm in repo.tokens.get(me, ()) else 0) > 0)
+      extdef = (lambda nm, me=name: repo.defcount.get(nm, 0) - (1 if nm in repo.defs_in.get(me, ()) else 0) > 0)
+      self.tree = norm.normalize_module(self.tree, name, repo.norm_stats, external=ext, external_def=extdef)
     self.short = name[4:] if name.startswith('pox.') else name
     self.is_pkg = os.path.basename(path) == '__init__.py'
     self.funcs = {}; self.classes = {}; self.assigns = {}
@@ -233,6 +235,9 @@ class Repo(object):
     self.modules = {}
     self.parse_errors = []
     self.dynamic = {}     # module name -> {global name: value}  (see dynnames)
+    # identifiers per file: a helper that some *other* file mentions stays a unit of its own when the normaliser inlines it
+    import re as _re
+    files = []
     for sd in subdirs:
       top = os.path.join(self.root, sd)
       if not os.path.isdir(top): continue
@@ -245,6 +250,19 @@ class Repo(object):
           if rel.endswith('.__init__'): rel = rel[:-9]
           try:
             with open(p, encoding='utf-8', errors='replace') as fh: src = fh.read()
+          except OSError: continue
+          files.append((rel, p, src, set(_re.findall(r'[A-Za-z_][A-Za-z0-9_]*', src)), set(_re.findall(r'\bdef\s+([A-Za-z_][A-Za-z0-9_]*)', src))))
+    self.mentions = {}
+    self.defcount = {}
+    for rel, p, src, toks, dfs in files:
+      for t in toks: self.mentions[t] = self.mentions.get(t, 0) + 1
+      for t in dfs: self.defcount[t] = self.defcount.get(t, 0) + 1
+    self.tokens = dict((rel, toks) for rel, p, src, toks, dfs in files)
+    self.defs_in = dict((rel, dfs) for rel, p, src, toks, dfs in files)
+    if True:
+      if True:
+        for rel, p, src, toks, dfs in files:
+          try:
             self.modules[rel] = Module(self, rel, p, src)
           except SyntaxError as ex:
             self.parse_errors.append((p, str(ex)))
